@@ -326,6 +326,9 @@ func c09Scenario1(r *mc.Report, sc c09Scenario) {
 					}
 					switch kind {
 					case "409":
+						if q.Verb == "create" {
+							return &sim.Fault{Code: 409, Reason: "AlreadyExists"} // what a 409 on a POST is
+						}
 						return &sim.Fault{Code: 409, Reason: "Conflict"}
 					case "500":
 						return &sim.Fault{Code: 500, Reason: "InternalError"}
